@@ -36,7 +36,13 @@ func VF_C12_Serialized() {
 	d := w.seedDatatype(vfDUID, vfKey, 1, model.TypeOfDatatype_COUNTER, 1)
 	w.seedOp(vfDUID, 1, 1, vfCUIDx, 1)
 	subscribe(d, vfCUIDx, 1, 1)
-	subscribe(d, vfCUIDy, 1, 0)
+	// the second client either pushes as a subscriber, or is just subscribing (its
+	// request carries the subscribe bit and a provisional DUID of its own)
+	ySubscribes := vf.Choice("y-request", 2) == 1
+	vf.Tag("y", ySubscribes)
+	if !ySubscribes {
+		subscribe(d, vfCUIDy, 1, 0)
+	}
 	// an earlier, pull-only request of x; its context is cancelled on return
 	if vf.Choice("earlier-request", 2) == 1 {
 		ctx0, cancel0 := vf.WithCancel(gocontext.Background())
@@ -61,8 +67,15 @@ func VF_C12_Serialized() {
 	}()
 	go func() {
 		ctx, cancel := vf.WithCancel(gocontext.Background())
-		r2, e2 = w.pushPullCtx(ctx, vfCol, vfCUIDy, &model.PushPullPack{Key: vfKey, DUID: vfDUID, Type: model.TypeOfDatatype_COUNTER,
-			CheckPoint: &model.CheckPoint{Sseq: 1, Cseq: 1}, Operations: []*model.Operation{vfIncOp(vfCUIDy, 1, 2)}})
+		if ySubscribes {
+			opt := model.PushPullBitNormal
+			opt.SetSubscribeBit()
+			r2, e2 = w.pushPullCtx(ctx, vfCol, vfCUIDy, &model.PushPullPack{Key: vfKey, DUID: vfDUIDu, Option: uint32(opt), Type: model.TypeOfDatatype_COUNTER,
+				CheckPoint: &model.CheckPoint{Sseq: 0, Cseq: 0}})
+		} else {
+			r2, e2 = w.pushPullCtx(ctx, vfCol, vfCUIDy, &model.PushPullPack{Key: vfKey, DUID: vfDUID, Type: model.TypeOfDatatype_COUNTER,
+				CheckPoint: &model.CheckPoint{Sseq: 1, Cseq: 1}, Operations: []*model.Operation{vfIncOp(vfCUIDy, 1, 2)}})
+		}
 		cancel()
 		done <- 2
 	}()
@@ -79,15 +92,27 @@ func VF_C12_Serialized() {
 		served++
 		wantX = 2
 	}
+	pushed := served
 	if !o2.HasErrorBit() {
 		served++
-		wantY = 1
+		if !ySubscribes {
+			pushed++
+			wantY = 1
+		}
 	}
 	vf.Assert(served >= 1, "C12 at least the lock holder is served")
 	vf.Assert(w.logInvariant(vfDUID), "C12/C06 the log invariants hold as after a one-at-a-time order of the served requests")
 	dd := w.datatype(vfDUID)
-	vf.Assert(dd.Sseq.End == 1+served, "C12 exactly the operations of the served requests are stored")
-	vf.Assert(dd.RWClients[vfCUIDx].CP.Cseq == wantX && dd.RWClients[vfCUIDy].CP.Cseq == wantY, "C12 exactly the served requests' checkpoints are recorded")
+	vf.Assert(dd.Sseq.End == 1+pushed, "C12 exactly the operations of the served requests are stored")
+	vf.Assert(dd.RWClients[vfCUIDx] != nil && dd.RWClients[vfCUIDx].CP.Cseq == wantX, "C12 exactly the served requests' checkpoints are recorded")
+	if ySubscribes {
+		vf.Assert((dd.RWClients[vfCUIDy] != nil) == !o2.HasErrorBit(), "C12 a served subscription is recorded, whatever ran at the same moment")
+		if !o2.HasErrorBit() {
+			vf.Assert(r2.DUID == vfDUID, "C13 the subscriber is given the datatype's DUID")
+		}
+	} else {
+		vf.Assert(dd.RWClients[vfCUIDy] != nil && dd.RWClients[vfCUIDy].CP.Cseq == wantY, "C12 exactly the served requests' checkpoints are recorded")
+	}
 	vf.Quiesce() // the handlers release the lock in a deferred call after replying
 	vf.Assert(w.lockFree(1, vfKey), "C12 the per-key lock is free afterwards")
 }
